@@ -390,6 +390,9 @@ fn shared_description_slice(ctx: &Ctx) {
 
 pub fn run(ctx: &Ctx) {
     shared_description_slice(ctx);
+    // a subshell that is stopped and continued from outside: the parent (no job control) sees
+    // nothing but its final exit status
+    crate::checks::c13::stop_continue_slice(ctx, "C08");
     let quick = ctx.quick();
     let seed = ctx.seed;
     fork_fault_slice(ctx);
